@@ -379,6 +379,7 @@ def run(prog: Program, roots=None, prop="C14", rid_prefix="R-C14") -> Results:
         from sa.rules import cursor
         cursor.check(prog, res, "R-C14-8", ("expressions/set.py", "expressions/scope.py", "expressions/source_code.py", "expressions/let.py"), 1)
         lookup_failures(prog, res, f"{rid_prefix}-6")
+        malformed_key_is_missing(prog, res, f"{rid_prefix}-17")
         positions_are_own(prog, res, f"{rid_prefix}-14")
         from sa.rules import merge as _merge
         _merge.check(prog, res, f"{rid_prefix}-15", f"{rid_prefix}-16")  # one tree per attrpath family: what the text shows is what lookups walk
@@ -558,6 +559,57 @@ def lookup_failures(prog: Program, res: Results, rid: str) -> None:
                         f"{f.key}: `{norm(n)}` indexes `{x}`, which may be any document value here ({'; '.join(why)[:100]}): when a prefix of "
                         f"the key is bound to a number, string or list the lookup of the missing key escapes with TypeError instead of "
                         f"KeyError")
+
+
+def malformed_key_is_missing(prog: Program, res: Results, rid: str) -> None:
+    """a key nothing is bound to raises KeyError also when it cannot be split into path segments: inside the read/delete dunders of
+    a mapping class a call that hands the key to a package function raising ValueError on malformed text sits inside a
+    `try … except ValueError` (the handler is then judged by the existing exit rules)"""
+    from sa.util import callee, handler_names, parent_map
+    r = res.rule(rid, "a missing key raises KeyError, not ValueError: inside __getitem__/__delitem__/__contains__ of a mapping class every "
+                 "call that hands the key to a package function which itself raises ValueError (the attrpath splitter) is enclosed in "
+                 "`try … except ValueError` (or a wider handler)", floor=1)
+    raisers = set()
+    for g in prog.all_functions():
+        if g.cls is not None:
+            continue
+        pm_g = parent_map(g.node)
+        for n in walk_no_nested(g.node):
+            if isinstance(n, ast.Raise) and n.exc is not None and (callee(n.exc) if isinstance(n.exc, ast.Call) else norm(n.exc)) == "ValueError":
+                cur, caught = n, False
+                while cur in pm_g:
+                    cur = pm_g[cur]
+                    if isinstance(cur, ast.Try) and any(set(handler_names(h)) & {"ValueError", "Exception", None} for h in cur.handlers) \
+                            and any(n is y for b in cur.body for y in ast.walk(b)):
+                        caught = True
+                if not caught:
+                    raisers.add(g.name)
+    for f in prog.all_functions():
+        if not (f.cls in MAPPING_CLASSES and f.name in ("__getitem__", "__delitem__", "__contains__")):
+            continue
+        ps = f.params()
+        if len(ps) < 2:
+            continue
+        key = ps[1]
+        pm = parent_map(f.node)
+        for c in walk_no_nested(f.node):
+            if not (isinstance(c, ast.Call) and isinstance(c.func, ast.Name) and c.func.id in raisers and c.func.id in prog.funcs
+                    and any(isinstance(y, ast.Name) and y.id == key for a in c.args for y in ast.walk(a))):
+                continue
+            r.instances += 1
+            res.analysed_functions.add(f.key)
+            cur, guarded = c, False
+            while cur in pm:
+                cur = pm[cur]
+                if isinstance(cur, ast.Try) and any(set(handler_names(h)) & {"ValueError", "Exception", None} for h in cur.handlers) \
+                        and any(c is y for b in cur.body for y in ast.walk(b)):
+                    guarded = True
+            r.ob(guarded, {"site": f.key, "call": norm(c)[:60]})
+            if not guarded:
+                res.add(rid, (f.key, "malformed key escapes as ValueError", c.func.id), f.loc(c),
+                        f"{f.key}: `{norm(c)[:60]}` raises ValueError on a key that is not a well-formed path (`c..d`, `c.`, an unterminated "
+                        f"quote) and nothing here turns it into KeyError: a lookup or deletion of such a — necessarily missing — key escapes "
+                        f"with ValueError")
 
 
 def identity_of_bindings(prog: Program, res: Results, rid: str) -> None:
